@@ -163,6 +163,33 @@ var c11 = &vh.Prop[c11Case]{
 			if d := vh.Diff(c.T, got, vh.Normalise(c.T, v, c.Cfg)); d != "" {
 				return vh.Fail("C11/decode-mismatch", "decoded value wrong at %s", d)
 			}
+			// decode the same bytes once more into the SAME (now populated) target from a second
+			// buffer, then destroy that buffer too: merging into existing strings, map keys and
+			// slices must not leave references to the input either
+			buf2 := make([]byte, len(data), len(data)+c.Spare)
+			copy(buf2, data)
+			if err := p.Unmarshal(buf2, target.Interface()); err != nil {
+				return vh.Fail("C11/unmarshal-error", "second decode into the same target: %v", err)
+			}
+			var mem2 []memRange
+			memRanges(target.Elem(), "out", &mem2, 0)
+			if cap(buf2) > 0 {
+				lo := uintptr(unsafe.Pointer(unsafe.SliceData(buf2)))
+				hi := lo + uintptr(cap(buf2))
+				for _, r := range mem2 {
+					if overlaps(r, lo, hi) {
+						return vh.Fail("C11/decoded-aliases-input", "after decoding into a populated target, %s points into the input buffer", r.what)
+					}
+				}
+			}
+			got = vh.FromReflect(c.T, target.Elem())
+			full2 := buf2[:cap(buf2)]
+			for j := range full2 {
+				full2[j] = 0x3C
+			}
+			if d := vh.Diff(c.T, vh.FromReflect(c.T, target.Elem()), got); d != "" {
+				return vh.Fail("C11/decoded-changes-with-input", "value decoded into a populated target changed after the input buffer was overwritten, at %s", d)
+			}
 			earlier = append(earlier, decoded{target.Elem(), got})
 			if len(mem) > 0 {
 				x.NonTrivial()
